@@ -47,6 +47,7 @@ type Contract struct {
 	Trusted    bool
 	GhostSets  []GhostSet
 	InlineCallees map[string]bool
+	AtSend     map[string][]Clause // channel element type name -> obligations at this function's sends
 	AtCall     map[string][]Clause // callee short name -> extra obligations at this function's calls of it
 	Pure       bool // interface method / external: the result depends only on receiver identity and arguments
 	NoBody     bool // interface method or external: contract only
@@ -96,7 +97,7 @@ type ContractFile struct {
 }
 
 var clauseKeywords = map[string]bool{"requires": true, "ensures": true, "claims": true, "modifies": true, "panics_when": true, "loop": true,
-	"inline": true, "trusted": true, "nobody": true, "var": true, "assume": true, "prove": true, "props": true, "apply": true, "reveal": true, "unroll_calls": true, "bounded": true, "split": true, "pure_param": true, "impl": true, "pure": true, "at_call": true, "ghost_set": true, "inline_callee": true}
+	"inline": true, "trusted": true, "nobody": true, "var": true, "assume": true, "prove": true, "props": true, "apply": true, "reveal": true, "unroll_calls": true, "bounded": true, "split": true, "pure_param": true, "impl": true, "pure": true, "at_call": true, "ghost_set": true, "inline_callee": true, "at_send": true}
 
 func parseContractFile(path, pkgPath string) (*ContractFile, error) {
 	data, err := os.ReadFile(path)
@@ -273,6 +274,25 @@ func parseContractFile(path, pkgPath string) (*ContractFile, error) {
 			curSlot = nil
 		case "pure_param":
 			cur.PureParams = append(cur.PureParams, fields[1:]...)
+			curSlot = nil
+		case "at_send":
+			// at_send <ElemType> requires <expr over x>: obligation of THIS function wherever it sends
+			// a value x of that (named) element type on a channel
+			if len(fields) < 4 || fields[2] != "requires" {
+				return nil, fmt.Errorf("%s:%d: at_send <ElemType> requires <expr>", path, ln+1)
+			}
+			if cur.AtSend == nil {
+				cur.AtSend = map[string][]Clause{}
+			}
+			{
+				after := strings.TrimSpace(strings.TrimPrefix(strings.TrimSpace(strings.TrimPrefix(rest, fields[1])), "requires"))
+				var tmp []Clause
+				addClause(&tmp, after, ln+1)
+				cc := cur
+				tname := fields[1]
+				pp := pend[len(pend)-1]
+				copyBack = append(copyBack, func() { cc.AtSend[tname] = append(cc.AtSend[tname], *pp.c) })
+			}
 			curSlot = nil
 		case "inline_callee":
 			// inline_callee <name>...: calls of these functions made while verifying THIS function
